@@ -651,6 +651,8 @@ def compose_stream(ctx: common.Ctx, n: int) -> None:
             bools = r.sample(CC.BOOL_OPTS, 4)
             codes = {o: r.sample(v, 3) for o, v in CC.CODE_OPTS.items()}
             sections = []
+            avail = list(pats)
+            r.shuffle(avail)   # every pattern names at most one section (a repeated header replaces the earlier one by design)
             for si in range(r.randint(2, 4)):
                 opts: dict[str, Any] = {}
                 if bools and r.random() < 0.7:
@@ -660,7 +662,9 @@ def compose_stream(ctx: common.Ctx, n: int) -> None:
                         opts[o] = [codes[o].pop()]
                 if not opts:
                     opts[bools.pop() if bools else "warn_unreachable"] = "True"
-                sections.append({"patterns": r.sample(pats, r.choice([1, 1, 2, 3])), "opts": opts})
+                take = [avail.pop() for _ in range(min(len(avail), r.choice([1, 1, 2, 3])))]
+                if take:
+                    sections.append({"patterns": take, "opts": opts})
             yield {"fn": "vlib.tasks.c17_compose:compose", "args": {"sections": sections, "modules": mods}, "_k": k}
 
     with common.workdir("C17c") as wd:
